@@ -184,6 +184,24 @@ PROPS["C04"] = {
     },
 }
 
+PROPS["C19"] = {
+    "level": "exploration",
+    "rule": ("each run generates a composition tree of depth <= 4 from {Safe, Named} x {Connection, Stream, Reader, Writer}, ReadWriteCloser(reader, writer), SimulatedConnection, "
+             "StreamWrappedConnection and BufferedInputConnection (including re-wrapping an already-safe wrapper) over counting fake resources with a drawn fault (close fails once / always, "
+             "read/write fail or are short, already closed), then a sequential history of up to 14 calls {Close, Closed, Read, Write, String, TryClose, LogClose} addressed to any wrapper of the tree; "
+             "non-trivial = at least one call was made; distinct = composition x call sequence"),
+    "probes": ["closes_checked", "status_checked"],
+    "technique": "deterministic simulation (degenerate: callers as nodes, the wrapped resource as the faulty disk): generated wrapper trees x call histories x failing resource, close-ledger oracle",
+    "level_text": ("Seeded exploration with a close ledger: every fake resource is closed at most once at all times and exactly once after a Close on any wrapper above it; a repeated Close returns nil; "
+                   "a first Close returns nil unless a resource below fails; Closed() is true on a wrapper that was closed and false while nothing in its chain was; a connection merely borrowed by "
+                   "StreamWrappedConnection is never closed. Histories are sequential, as the property's quantifier says."),
+    "level_note": "No clock, network or scheduling is involved in this property; the only fault dimension is the failing underlying resource. The same chooser/shrinker as elsewhere yields minimal histories.",
+    "tiers": {
+        "quick": {"runs": 24000, "chunk": 2000, "shrink_s": 20},
+        "thorough": {"runs": 2400000, "chunk": 20000, "shrink_s": 60},
+    },
+}
+
 PENDING = "check under construction in this round; see DESIGN.md section 5 for the planned simulation"
 NOT_APPLICABLE = [
     {"property_id": "C08", "reason": "pure function of one byte string (codec Encode/Decode): no schedule, clock, fault or second party for a simulator to control; see DESIGN.md section 6"},
